@@ -262,11 +262,12 @@ package badger
 // bit; nothing else differs. The index into b.Ptrs is in range (no value log in memory mode).
 //@ func (*DB).writeToLSM
 //@   props C06 C28 C10
-//@   requires b != nil && db.mt != nil && db.threshold != nil
+//@   requires b != nil && db.mt != nil && db.mt.sl != nil && db.threshold != nil
 //@   requires[entries] forall i int :: 0 <= i && i < len(b.Entries) ==> b.Entries[i] != nil
 //@   loop 1 invariant[range] -1 <= rangeindex && rangeindex < len(b.Entries)
 //@   loop 1 invariant[entries] forall i int :: 0 <= i && i < len(b.Entries) ==> b.Entries[i] != nil
 //@   loop 1 invariant[ptrs] !db.opt.InMemory ==> len(b.Ptrs) == len(b.Entries)
+//@   loop 1 invariant[memtable] db.mt != nil && db.mt.sl != nil && db.threshold != nil
 //@   assert[inline-value] before call Put#1 : arg1 == entry.Key && arg2.Value == entry.Value && arg2.Meta == entry.meta &^ bitValuePointer && arg2.UserMeta == entry.UserMeta && arg2.ExpiresAt == entry.ExpiresAt
 //@   assert[pointer-value] before call Put#2 : arg1 == entry.Key && arg2.Value == ret(Encode#1) && arg2.Meta == entry.meta | bitValuePointer && arg2.UserMeta == entry.UserMeta && arg2.ExpiresAt == entry.ExpiresAt
 //@   assert[pointer-of-entry] before call Encode : arg0 == b.Ptrs[i]
@@ -707,3 +708,89 @@ package badger
 //@   assert[marks-at-max-version] before call Done#1 : arg1 == ret(MaxVersion#1) && arg0 == db.orc.txnMark
 //@   assert[read-mark-at-max-version] before call Done#2 : arg1 == ret(MaxVersion#1) && arg0 == db.orc.readMark
 //@   assert[untouched-until-increment] before call incrementNextTs : arg0 == db.orc && db.orc.nextTxnTs == ret(MaxVersion#1)
+
+// ---- call-order rules that recovery relies on (C08, C10): ordering obligations only ----
+// Neither property is decided (a crash point is a cut through the effects of several
+// goroutines; a power loss needs a model of which writes survive). What is checked is that the
+// steps whose order recovery depends on happen in that order inside single functions.
+
+// A compaction's MANIFEST change is logged, without error, before the new tables replace the
+// old ones and before the input tables lose their last reference (and so their files).
+//@ func (*levelsController).runCompactDef
+//@   props C08 C14
+//@   light
+//@   assert[manifest-before-replace] before call replaceTables : called(addChanges#1) && ret(addChanges#1) == nil
+//@   assert[replace-before-delete] before call deleteTables : called(replaceTables#1) && ret(replaceTables#1) == nil
+//@   assert[manifest-error-stops] before return : called(addChanges#1) && ret(addChanges#1) != nil ==> !called(replaceTables#1) && !called(deleteTables#1)
+
+// A flushed table is recorded in the MANIFEST before it becomes visible to compactions.
+//@ func (*levelsController).addLevel0Table
+//@   props C08 C14
+//@   light
+//@   assert[manifest-before-publish] before call tryAddLevel0Table : t.IsInmemory || (called(addChanges#1) && ret(addChanges#1) == nil)
+//@   assert[publish-this-table] before call tryAddLevel0Table : arg1 == t
+
+// An immutable memtable leaves the list and gives up its WAL only after its flush succeeded.
+//@ func (*DB).flushMemtable
+//@   props C08
+//@   light
+//@   assert[flush-before-release] before call DecrRef : called(handleMemTableFlush#1) && ret(handleMemTableFlush#1) == nil && held(db.lock)
+
+// A request batch is acknowledged with nil only after the value log and the memtable (and its
+// WAL) took every request; every failure acknowledges with the error.
+//@ func (*DB).writeRequests
+//@   props C10 C03
+//@   light
+//@   assert[vlog-before-lsm] before call writeToLSM : called(write#1) && ret(write#1) == nil
+//@   assert[ack-nil-only-after-all] before call done#4 : arg0 == nil && called(write#1) && ret(write#1) == nil
+//@   assert[ack-vlog-error] before call done#1 : arg0 == ret(write#1) && ret(write#1) != nil
+//@   assert[ack-lsm-error] before call done#3 : arg0 == ret(writeToLSM#1) && ret(writeToLSM#1) != nil
+
+// ---- log records (C16) and per-record IVs (C23) ----
+
+// The IV of a record is the file's 12-byte base IV followed by the record's offset, big endian.
+//@ func (*logFile).generateIV
+//@   props C23 C16
+//@   requires len(lf.baseIV) >= 12
+//@   ensures[shape] len(result) == 16 && fresh(result)
+//@   ensures[base] bytes(result[:12]) == bytes(lf.baseIV[:12])
+//@   ensures[offset] be32(result, 12) == offset
+
+// encodeEntry: the header describes the entry; header, key and value all go through the writer
+// that feeds both the buffer and the checksum; an encrypted record uses the IV of its own
+// offset; the checksum written is the one computed; the length returned is what was written.
+//@ func (*logFile).encodeEntry
+//@   props C16 C23
+//@   light
+//@   assert[header-of-entry] before call Encode : arg0.klen == uint32(len(e.Key)) && arg0.vlen == uint32(len(e.Value)) && arg0.expiresAt == e.ExpiresAt && arg0.meta == e.meta && arg0.userMeta == e.UserMeta
+//@   assert[header-checksummed] before call Write#1 : arg0 == ret(MultiWriter#1)
+//@   assert[key-checksummed] before call Write#2 : arg0 == ret(MultiWriter#1) && arg1 == e.Key
+//@   assert[value-checksummed] before call Write#3 : arg0 == ret(MultiWriter#1) && arg1 == e.Value
+//@   assert[encrypted-checksummed] before call XORBlockStream : arg0 == ret(MultiWriter#1) && arg2 == lf.dataKey.Data && arg3 == ret(generateIV#1)
+//@   assert[iv-of-own-offset] before call generateIV : arg0 == lf && arg1 == offset
+//@   assert[checksum-written] before call PutUint32 : arg2 == ret(Sum32#1)
+//@   assert[checksum-after-payload] before call Sum32 : called(Write#1) && (called(XORBlockStream#1) || (called(Write#2) && called(Write#3)))
+//@   assert[length] before return : result1 == nil ==> result0 == ret(Encode#1) + len(e.Key) + len(e.Value) + 4
+//@   assigns inferred
+
+// decodeEntry: the inverse slicing; an encrypted record is decrypted with the IV of its offset.
+//@ func (*logFile).decodeEntry
+//@   props C16 C23
+//@   light
+//@   assert[header-first] before call Decode : arg1 == buf
+//@   assert[decrypt-own-offset] before call decryptKV : arg0 == lf && arg2 == offset
+//@   assert[fields] before return : result1 == nil ==> result0.meta == h.meta && result0.UserMeta == h.userMeta && result0.ExpiresAt == h.expiresAt && result0.offset == offset && result0.Key == kv[:h.klen] && result0.Value == kv[h.klen : h.klen+h.vlen]
+
+//@ func (*logFile).decryptKV
+//@   props C16 C23
+//@   light
+//@   assert[iv-of-own-offset] before call generateIV : arg0 == lf && arg1 == offset
+//@   assert[with-data-key] before call XORBlockAllocate : arg0 == buf && arg1 == lf.dataKey.Data && arg2 == ret(generateIV#1)
+
+// writeEntry: the record is encoded for the current write offset and the offset advances by
+// exactly the encoded length (so offsets, and therefore IVs, never repeat within a file).
+//@ func (*logFile).writeEntry
+//@   props C16 C23
+//@   light
+//@   assert[encode-at-write-offset] before call encodeEntry : arg0 == lf && arg2 == e && arg3 == lf.writeAt
+//@   assert[offset-advances] before call zeroNextEntry : lf.writeAt == old(lf.writeAt) + uint32(ret0(encodeEntry#1))
